@@ -56,7 +56,7 @@ def run():
     vs = {v["id"]: v["ok"] for v in payloads(run_tlc("Trace_C16", files={"c16.ndjson": ndjson(rws)}, workers=2), "V ")}
     good &= expect("Trace_C16 (token text changed under padding)", vs["a"], vs["b"])
     # ---- PanTruth
-    rws = [{"id": "a", "b": "T", "obs": ["T"] * 9}, {"id": "b", "b": "T", "obs": ["T"] * 4 + ["F"] + ["T"] * 4}]
+    rws = [{"id": "a", "b": "T", "obs": ["T"] * 10}, {"id": "b", "b": "T", "obs": ["T"] * 4 + ["F"] + ["T"] * 5}]
     vs = {v["id"]: v["ok"] for v in payloads(run_tlc("PanTruth", files={"c12.ndjson": ndjson(rws)}, workers=2), "V ")}
     good &= expect("PanTruth.Agree (one construct decides differently)", vs["a"], vs["b"])
     # ---- Trace_C17 floats
